@@ -10,7 +10,7 @@ def errOf : String → Err
 def errName : Err → String
   | .notFound => "notFound" | .missingCommit => "missingCommit" | .multipleRoots => "multipleRoots"
   | .decode => "decode" | .invalidPack => "invalidPack" | .mergeWithOps => "mergeWithOps"
-  | .noCreateTime => "noCreateTime" | .clockOrder => "clockOrder" | .clockJump => "clockJump" | .fuel => "fuel"
+  | .noCreateTime => "noCreateTime" | .clockOrder => "clockOrder" | .clockJump => "clockJump" | .fuel => "fuel" | .noOps => "noOps"
 
 def packOf (j : Json) : Pack :=
   { id := getStr j "id", author := getStr j "author",
